@@ -288,6 +288,8 @@ func show(v reflect.Value) string {
 	return fmt.Sprint(v.Interface())
 }
 
+var sharedInput [64]byte
+
 func roundTrip(r *vk.Run, zone string, proto any, sl []slot, set map[int]reflect.Value) {
 	t := reflect.TypeOf(proto)
 	v := reflect.New(t).Elem()
@@ -311,6 +313,15 @@ func roundTrip(r *vk.Run, zone string, proto any, sl []slot, set map[int]reflect
 		return
 	}
 	cs.Bytes = vk.Hex(enc)
+	// decode from one input buffer that every round trip of this process reuses (a decoder must not
+	// keep a reference to its input), and overwrite it afterwards (results must not alias it)
+	copy(sharedInput[:], enc)
+	enc = sharedInput[:64:64]
+	defer func() {
+		for i := range sharedInput {
+			sharedInput[i] ^= 0xff
+		}
+	}()
 	decoders := map[string]func() (reflect.Value, error){
 		"Unmarshal": func() (reflect.Value, error) {
 			p := reflect.New(t)
@@ -399,6 +410,24 @@ func partA(r *vk.Run, zone string, zoned bool) int64 {
 		}
 		if zoned {
 			continue
+		}
+		// value histories: every ordered pair of alphabet values of one field as two consecutive
+		// round trips of the same message type
+		for i, s := range sl {
+			a := alphabet(s.typ, true)
+			for _, v1 := range a {
+				for _, v2 := range a {
+					for _, val := range []reflect.Value{v1, v2} {
+						m := map[int]reflect.Value{}
+						for k, v := range base {
+							m[k] = v
+						}
+						m[i] = val
+						roundTrip(r, zone, proto, sl, m)
+						n++
+					}
+				}
+			}
 		}
 		for i := range sl {
 			for j := i + 1; j < len(sl); j++ {
@@ -658,7 +687,7 @@ func main() {
 	r.Distinct(distinct)
 	r.Sample(map[string]any{"type": "PutCardRequest", "fields": "CardNumber=0x01020304 From=2024-02-29 To=9999-12-31 Door1..4 PIN=999999", "check": "Unmarshal(Marshal(v)) == v, UnmarshalAs likewise"})
 	r.Sample(map[string]any{"type": "GetTimeResponse", "zone": "Asia/Tehran", "fields": "DateTime=<zero>", "check": "decodes back to the zero value"})
-	r.Rule("(A) 65 message struct types: baseline + all-zero value + every field over its in-domain alphabet (all uint8, all 1441 HH:mm, 15 civil dates incl. the zero value, date-times incl. zero, ...) + all field pairs over boundary alphabets, through Unmarshal and UnmarshalAs; date-bearing types repeated in every listed zone; (B) every uncovered byte x 255 values for 32 request + 31 reply layouts through the dispatchers; (C) 256 codes x 4 protocol ids x lengths 0..128 (all lengths for 16 codes, stride otherwise) through both dispatchers. distinct = cases generated (each a distinct value/byte string)")
+	r.Rule("(A) 65 message struct types: baseline + all-zero value + every field over its in-domain alphabet (all uint8, all 1441 HH:mm, 15 civil dates incl. the zero value, date-times incl. zero, ...) + all field pairs over boundary alphabets + every ordered pair of boundary values of one field as two consecutive round trips, through Unmarshal and UnmarshalAs, every decode from one reused 64-byte input buffer that is overwritten afterwards; date-bearing types repeated in every listed zone; (B) every uncovered byte x 255 values for 32 request + 31 reply layouts through the dispatchers; (C) 256 codes x 4 protocol ids x lengths 0..128 (all lengths for 16 codes, stride otherwise) through both dispatchers. distinct = cases generated (each a distinct value/byte string)")
 	r.Assume("which bytes belong to a field comes from the hand-written layouts in spec/protocol.go")
 	r.Assume("in-domain date-times are civil times that exist in the process zone (constructed with time.Date in that zone)")
 	r.Finish()
